@@ -104,7 +104,7 @@ def main(v: Verdict) -> None:
         m["id"] = k + 1
         files[f"wm{k + 1:04d}.py"] = module_src(m)
     pkg = write_pkg(files, PKG)
-    r = run_many([{"src": pkg, "opts": Opts(), "timeout": 900}])[0]
+    r = run_many([{"src": pkg, "opts": Opts(), "timeout": 900, "trace_walk": True}])[0]
     if r.exit != "ok":
         v.machinery(f"run failed: {r.exit} {r.exc} {r.frame} {r.msg}")
         return
@@ -121,15 +121,36 @@ def main(v: Verdict) -> None:
         o = observe(api, f"{PKG}/wm{m['id']:04d}", valid)
         o["sorted"] = lists_sorted
         o["schema"] = api.get("schemaVersion", 0) if isinstance(api.get("schemaVersion", 0), int) else 0
-        obs.append({"id": m["id"], "sc": {k: m[k] for k in ("k", "name", "flags", "ch")}, "obs": o})
+        obs.append({"id": m["id"], "kind": "inventory", "sc": {k: m[k] for k in ("k", "name", "flags", "ch")}, "obs": o})
+    # the walk itself, module by module, as recorded at the walker's enter/leave callbacks
+    per_mod, cur = {}, None
+    for ev in r.walk:
+        if ev[1] == "module" and ev[0] == "enter":
+            cur = ev[2]
+            per_mod[cur] = []
+        if cur is not None:
+            per_mod[cur].append(ev)
+        if ev[1] == "module" and ev[0] == "leave":
+            cur = None
+    n_walk = 0
+    for m in mods:
+        evs = per_mod.get(f"{PKG}.wm{m['id']:04d}")
+        if evs is not None:
+            n_walk += len(evs)
+            obs.append({"id": f"walk:{m['id']}", "kind": "walk", "sc": {k: m[k] for k in ("k", "name", "flags", "ch")}, "obs": {"walk": evs}})
+    v.extra["walk_events_validated"] = n_walk
     bad = judge(v, "C12_Trace", obs)
     by_id = {o["id"]: o for o in obs}
     for b in bad:
         o = by_id.get(b.get("subject"))
         if o:
             b["python"] = module_src(o["sc"])
+            b["expected"] = str(b.get("expected", ""))[:600]
+            b["observed"] = str(b.get("observed", ""))[:600]
     v.add_bad(bad)
-    v.samples = [{"python": module_src(o["sc"]), "entries": [e["id"] for e in o["obs"]["entries"]]} for o in obs[:: max(1, len(obs) // 3)]][:3]
-    v.extra["modules_judged"] = len(obs)
-    v.extra["entries_judged"] = sum(len(o["obs"]["entries"]) for o in obs)
+    inv = [o for o in obs if o["kind"] == "inventory"]
+    v.samples = [{"python": module_src(o["sc"]), "entries": [e["id"] for e in o["obs"]["entries"]]} for o in inv[:: max(1, len(inv) // 2)]][:2]
+    v.samples += [{"walk": o["obs"]["walk"][:12]} for o in obs if o["kind"] == "walk"][:1]
+    v.extra["modules_judged"] = len(inv)
+    v.extra["entries_judged"] = sum(len(o["obs"]["entries"]) for o in inv)
     v.assumptions += ["sortedness of the top-level lists is computed by the harness (TLC has no string order) and passed as a fact", "mypy 1.20.2"]
